@@ -453,7 +453,7 @@ package raft
 //@   ensures [term-vote] err == nil ==> r.currentTerm == persTerm && r.votedFor == persVote
 //@   ensures [I0] err == nil ==> 0 <= Lfirst && Lfirst <= Llast
 //@   ensures [I1] err == nil ==> r.lastApplied <= r.commitIndex
-//@   ensures [I2] err == nil && file != nil ==> r.commitIndex <= Llast && r.commitIndex == r.lastIncludedIndex && r.lastApplied == r.lastIncludedIndex
+//@   at call file.Close assert [I2] r.commitIndex <= Llast && r.commitIndex == r.lastIncludedIndex && r.lastApplied == r.lastIncludedIndex && r.lastIncludedIndex == sfIndex[file]
 
 // ===========================================================================================
 // Leader side: replication, commitment, leadership confirmation (C01, C04, C05, C09, C17)
